@@ -32,7 +32,7 @@ static long kill_at, fail_at, alloc_fail_at, short_seed;
 static int fail_errno, fail_eintr_first, eintr_on, short_on;
 static char fail_class, short_mode = 'r';
 static long n_out, n_class, n_alloc;
-static char readdir_mode[64];
+static char readdir_mode[4200];
 static uintptr_t exe_lo, exe_hi;
 static unsigned long long rng;
 static int count_allocs;
@@ -256,6 +256,28 @@ static struct dirent *readdir_common(DIR *d)
 			if (strcmp(dirs[k].ents[i]->d_name, dirs[k].ents[j]->d_name) > 0) { struct dirent *t = dirs[k].ents[i]; dirs[k].ents[i] = dirs[k].ents[j]; dirs[k].ents[j] = t; }
 		if (!strcmp(readdir_mode, "reverse")) {
 			for (int i = 0; i < n / 2; ++i) { struct dirent *t = dirs[k].ents[i]; dirs[k].ents[i] = dirs[k].ents[n - 1 - i]; dirs[k].ents[n - 1 - i] = t; }
+		} else if (!strncmp(readdir_mode, "file:", 5)) {
+			/* explicit order: lines "<absolute directory> name1 name2 ..." ; unlisted names stay behind, sorted */
+			char link[64], dpath[4096], line[8192];
+			snprintf(link, sizeof link, "/proc/self/fd/%d", dirfd(d));
+			ssize_t dl = readlink(link, dpath, sizeof dpath - 1);
+			FILE *of = dl > 0 ? fopen(readdir_mode + 5, "r") : NULL;
+			if (dl > 0) dpath[dl] = 0;
+			while (of && fgets(line, sizeof line, of)) {
+				char *tok = strtok(line, " \n");
+				if (!tok || strcmp(tok, dpath)) continue;
+				int pos = 0;
+				while ((tok = strtok(NULL, " \n")) != NULL)
+					for (int i = pos; i < n; ++i)
+						if (!strcmp(dirs[k].ents[i]->d_name, tok)) {
+							struct dirent *t = dirs[k].ents[i];
+							for (int j = i; j > pos; --j) dirs[k].ents[j] = dirs[k].ents[j - 1];
+							dirs[k].ents[pos++] = t;
+							break;
+						}
+				break;
+			}
+			if (of) fclose(of);
 		} else if (strcmp(readdir_mode, "sorted")) {
 			unsigned long long s = (unsigned long long)atol(readdir_mode) * 0x9E3779B97F4A7C15ULL ^ h;
 			for (int i = n - 1; i > 0; --i) {
